@@ -11,12 +11,14 @@ THEOREMS = ["C03_rewind_restores_counters", "C03_checkpoint_then_rewind_roundtri
 impl_batch = cc.impl_batch
 coq_term = cc.coq_term
 RULE = ("C03 differential corpus: per-point plans `checkpoint; set(1, x_i); wait; create; read 1; read 2; save` (one stream, two streams, "
-        "run key, two sequential + two interleaved keyed runs) and the real bluesky plans count([d1,d2], num=3), scan([d2], d1, 0, 4, 3), "
+        "run key, two sequential + two interleaved keyed runs; and the non-rewindable-detector form `checkpoint; rewindable False; set; wait; create; read; read; save; rewindable True; sleep|null; null`, one and two streams) and the real bluesky plans count([d1,d2], num=3), scan([d2], d1, 0, 4, 3), "
         "all on devices whose reading is a function of the last set positions (engine_driver_ctl.PosDev: 10*own position + sum of "
         "(index+1)*position of the others); x {pause(+resume), suspension(+release), deferred pause, two pauses, suspension with pre/post "
         "plan + pause} at every `_run` step, plus seeded random repeated interruptions; each case is compared with the uninterrupted "
         "run of the same plan: final map (run, stream, seq_num) -> data, every RunStop (exit_status, num_events), no call ending in an "
         "exception, engine idle at the end.  The shared engine corpus is NOT part of C03 (its stock devices count reads). "
+        "Cases in which an interruption is accepted while the plan has rewinding switched off (rewindable False: the plan declares the "
+        "section impossible to re-take) are outside the property and not compared. "
         "non-trivial = at least one request executed; distinct by case JSON")
 
 
@@ -38,12 +40,35 @@ def _summary(obs_list):
     return ev, stops, starts
 
 
+def _interrupted_while_not_rewindable(obs):
+    """a pause / suspension was accepted (or a pause message ran) while the PLAN had switched rewinding off
+    (the suspender helper's own rewindable(False) does not count)"""
+    plan_rw = True
+    cur = None
+    for e in cc.timeline(obs):
+        if e[0] == "main" and e[1] == "call":
+            plan_rw = True
+        if e[0] == "msg":
+            cur = e
+        if e[0] == "resp" and cur is not None and cur[1] is not None and cur[2]["cmd"] == "rewindable" and not cc.is_exn(e[1]):
+            if cur[2]["args"][0] is not None:
+                plan_rw = bool(cur[2]["args"][0])
+            cur = None
+        if e[0] == "req" and e[1] and e[2] in ("pause", "suspend") and not (e[2] == "pause" and e[3] is True) and not plan_rw:
+            return True
+        if e[0] == "state" and e[2] == "pausing" and not plan_rw:
+            return True
+    return False
+
+
 def oracle(case, obs):
     if obs.get("errors"):
         return "driver: " + str(obs["errors"][0])[:200]
     base_ = obs.get("baseline")
     if not base_ or base_.get("errors"):
         return "driver: no baseline run for the differential oracle (%s)" % (base_ and base_.get("errors"))
+    if _interrupted_while_not_rewindable(obs):
+        return None      # outside the property: the plan declared this section impossible to re-take (rewindable False)
     ev, stops, starts = _summary(obs["obs"])
     bev, bstops, bstarts = _summary(base_["obs"])
     outs = ec.outs_of(obs)
